@@ -485,6 +485,11 @@ namespace mfuse
         if (numelements > maxobjects) Resize(numelements);
 
         const size_t startNum = numobjects;
+        // destroy the elements that are cut off
+        for (size_t i = numelements; i < startNum; ++i) {
+            objlist[i].~Type();
+        }
+
         numobjects = numelements;
         for (size_t i = startNum; i < numobjects; ++i) {
             new(objlist + i) Type();
